@@ -1,9 +1,9 @@
 #!/bin/sh
 # Run every claimed quick check concurrently (worst-case machine load) and report any verdict that is not exit 0.
 cd "$(dirname "$0")/.."
-mkdir -p .build/load
+mkdir -p .loadtest
 for pid in $(python3 -c "import json;print(' '.join(c['property_id'] for c in json.load(open('MANIFEST.json'))['checks']))"); do
-  ( ./check $pid --tier quick > .build/load/$pid.log 2>&1; echo "$pid exit=$?" >> .build/load/summary.txt ) &
+  ( ./check $pid --tier quick > .loadtest/$pid.log 2>&1; echo "$pid exit=$?" >> .loadtest/summary.txt ) &
 done
 wait
-sort .build/load/summary.txt; rm -f .build/load/summary.txt
+sort .loadtest/summary.txt; rm -f .loadtest/summary.txt
